@@ -141,9 +141,11 @@ impl StateMachine {
         // Note that the order of NewView and proposal messages doesn't matter, because
         // proposal is a superset of NewView message.
         let justification = self.get_justification();
+        // The proposer task may have terminated already (it exits as soon as the context is
+        // canceled, possibly while this replica is still processing a message), so a missing
+        // receiver is not an error.
         self.proposer_sender
-            .send(Some(justification.clone()))
-            .expect("justification_watch.send() failed");
+            .send_replace(Some(justification.clone()));
 
         // Clear the block proposal cache.
         if let Some(qc) = self.high_commit_qc.as_ref() {
